@@ -684,7 +684,36 @@ fn run_conflict_case(c: &MergeCase, master: &ADoc, st: &mut Stats) -> Result<(),
         }
         out
     }
-    let views = [without(&master.root, &path, xb), without(&master.root, &path, xa)];
+    let mut views = [without(&master.root, &path, xb), without(&master.root, &path, xa)];
+    // give each file a package of its own where the master has packages to spare (one that is not on the path to the divergence):
+    // the first such package stays in file1 only, the last one in file0 only - a rejected file then carries content that the merge
+    // imports before / after it reaches the conflict
+    let mut exclusive_pkgs = 0;
+    if let Some(pi) = master.root.content.iter().position(|c| matches!(c, AContent::Elem(e) if e.name == ElementName::ArPackages)) {
+        if let AContent::Elem(pk) = &master.root.content[pi] {
+            let on_path = if path.first() == Some(&pi) { path.get(1).copied() } else { None };
+            let spare: Vec<usize> = (0..pk.content.len()).filter(|j| Some(*j) != on_path && matches!(&pk.content[*j], AContent::Elem(e) if e.name == ElementName::ArPackage)).collect();
+            if spare.len() >= 2 && path.first() == Some(&pi) && path.len() >= 2 {
+                let (first, last) = (spare[0], spare[spare.len() - 1]);
+                // remove the higher index only (the divergence path is addressed by index: nothing in front of it may shift)
+                if first > path[1] {
+                    if let AContent::Elem(v) = &mut views[0].content[pi] {
+                        v.content.remove(first);
+                        exclusive_pkgs += 1;
+                    }
+                }
+                if last > path[1] && last != first {
+                    if let AContent::Elem(v) = &mut views[1].content[pi] {
+                        v.content.remove(last);
+                        exclusive_pkgs += 1;
+                    }
+                }
+            }
+        }
+    }
+    if exclusive_pkgs > 0 {
+        st.class("conflict:files-with-packages-of-their-own");
+    }
     let describe = {
         let mut n = &master.root;
         let mut names = vec![];
@@ -719,9 +748,15 @@ fn run_conflict_case(c: &MergeCase, master: &ADoc, st: &mut Stats) -> Result<(),
         let m = AutosarModel::new();
         let mut verdict = Ok(String::new());
         for i in order {
+            let n_before = m.elements_dfs().count();
             match crate::engine::no_panic(|| m.load_buffer(&texts[i], &names[i], true)) {
                 Ok(Ok(_)) => {}
                 Ok(Err(e)) => {
+                    // the model must still be the union of the ACCEPTED files: nothing of the rejected file stays in the tree
+                    let n_after = m.elements_dfs().count();
+                    if n_after != n_before {
+                        return Err(fail("merge:rejected-file-left-elements", format!("load order {:?}: {} is rejected ({e}) but the model has {n_after} elements afterwards, {n_before} before", order, names[i])));
+                    }
                     verdict = Err(crate::hist::err_variant(&e));
                     break;
                 }
